@@ -371,7 +371,7 @@ pub fn prop(tier: Tier, seed: u64) -> Prop {
         let b: Vec<f64> = match ck {
             CK::U8 => vec![0.0, 1.0, 2.0, 127.0, 128.0, 254.0, 255.0],
             CK::U16 => vec![0.0, 1.0, 255.0, 256.0, 32767.0, 32768.0, 65534.0, 65535.0],
-            _ => vec![0.0, 1.0, 0.5, 0.25, 2.0, 1e-30, 255.0],
+            _ => vec![0.0, 1.0, 0.5, 0.25, 2.0, 1e-30, 255.0, -0.5, -2.0, -1e-30],
         };
         let mut l = Lcg::new(seed ^ idx);
         let src = Raw::from_fn(pt, w, 9, |x, y, c| {
